@@ -22,7 +22,7 @@
     correspondence (results and final cache contents of both containers against the model), not proved.
     Run time is not part of the statement: the fuel bound [2 * mu e] is exponential in the bit widths. *)
 From Coq Require Import List NArith Sorted.
-From Patronus Require Import ExprMeta ExprMetaSpec ExprMetaProofs.
+From Patronus Require Import ExprMeta ExprMetaSpec ExprMetaProofs SimplifyCacheRefs SimplifyCacheRefsProofs.
 From Patronus Require Import Simplify SimplifyFix SimplifyCache SimplifyCacheProofs SimplifyBuilders
      SimplifyTermMeasure SimplifyTermRules3 SimplifyTerm SimplifyTermNoPanic1 SimplifyTermNoPanic SimplifyCacheComplete.
 Import ListNotations.
@@ -248,3 +248,53 @@ Example C13_example_containers :
    (b2, r1, r2, r3, dense_bits_contains b3 63, dense_bits_contains b3 64))
   = ([9223372036854775808; 1], true, true, true, true, false).
 Proof. vm_compute. repeat split; reflexivity. Qed.
+
+(** ** the memoising driver over the two cache containers (Model/SimplifyCacheRefs.v)
+
+    [simplify_batch_dense] / [simplify_batch_sparse]: one [Simplifier] instance with a [DenseExprMetaData] /
+    [SparseExprMap] cache (keys and values are [ExprRef] indices of an interning table, [get_fixed_point] is the one
+    of meta.rs) fed the history [es].  For EVERY history and every fuel: the same list of results (the same
+    expression, the same panic, or out of fuel in both), the same interning table, and the two caches hold the
+    same map - hence the same [key -> value] entries. *)
+Theorem C13_container_irrelevant : forall (fuel : nat) (es : list expr),
+  match simplify_batch_dense fuel es, simplify_batch_sparse fuel es with
+  | (cd, d, rd), (cs, s, rs) =>
+      rd = rs /\ cd = cs /\ fm_eq (dense_abs None d) (sparse_abs None s) /\
+      forall e, cache_entry dense_ops cd d e = cache_entry sparse_ops cs s e
+  end.
+Proof. exact container_irrelevant. Qed.
+Print Assumptions C13_container_irrelevant.
+
+(** the same from any interning table and any two containers holding the same map (instances with a past) *)
+Theorem C13_container_irrelevant_from :
+  forall (fuel : nat) (c : ctx) (d : dense (option N)) (s : sparse (option N)) (es : list expr),
+  fm_eq (dense_abs None d) (sparse_abs None s) ->
+  match simplify_batch_r dense_ops fuel c d es, simplify_batch_r sparse_ops fuel c s es with
+  | (cd, d', rd), (cs, s', rs) => rd = rs /\ cd = cs /\ fm_eq (dense_abs None d') (sparse_abs None s')
+  end.
+Proof. exact container_irrelevant_from. Qed.
+Print Assumptions C13_container_irrelevant_from.
+
+(** non-vacuity: the history of [C13_example_history] through both containers: results, interning table, the raw
+    dense vector and the raw sparse entries (different representations of the same map) *)
+Example C13_example_container_history :
+  let x := BVSymbol "x" 4 in
+  let a := BVNot (BVNot x 4) 4 in
+  let b := BVAnd a a 4 in
+  simplify_batch_dense 200 [a; b; a] =
+    ([a; BVNot x 4; x; b], [Some 2; Some 1; Some 2; Some 2]%N, [SOk x; SOk x; SOk x]) /\
+  simplify_batch_sparse 200 [a; b; a] =
+    ([a; BVNot x 4; x; b], [(2, Some 2); (1, Some 1); (0, Some 2); (3, Some 2)]%N, [SOk x; SOk x; SOk x]) /\
+  snd (simplify_batch 200 [] [a; b; a]) = snd (simplify_batch_dense 200 [a; b; a]).
+Proof. vm_compute. repeat split; reflexivity. Qed.
+
+(** both instances compute what the same driver computes over the specification-level map [ExprRef -> Option<ExprRef>]
+    ([fun_ops]: a read is an application, a store the point update) *)
+Theorem C13_containers_refine_map : forall (fuel : nat) (es : list expr),
+  match simplify_batch_r fun_ops fuel [] (fm_empty None) es with
+  | (c, m, rs) =>
+      (match simplify_batch_dense fuel es with (cd, d, rd) => rd = rs /\ cd = c /\ fm_eq (dense_abs None d) m end) /\
+      (match simplify_batch_sparse fuel es with (cs, s, rs') => rs' = rs /\ cs = c /\ fm_eq (sparse_abs None s) m end)
+  end.
+Proof. exact containers_refine_map. Qed.
+Print Assumptions C13_containers_refine_map.
